@@ -44,6 +44,7 @@ def main():
                     os.makedirs(dd, exist_ok=True)
                     with open(os.path.join(dd, f["path"]["file"]), "w", encoding="utf-8") as fh:
                         fh.write(absyn.render(c07.with_inc_strings(f["s"], root), rng))
+                c07.make_links(c.get("links"), root)
                 text = absyn.render(c07.with_inc_strings(c["s"], root), rng)
                 path = os.path.join(root, "w", "main.xbb")
                 with open(path, "w", encoding="utf-8") as fh:
